@@ -171,7 +171,11 @@ Definition arg_usize (v : value) : option Z :=
 Definition filter_nth (l : list value) (n : value) : res value :=
   match arg_usize n with
   | None => RErr ErrMsg
-  | Some z => ROk (match nth_error l (Z.to_nat z) with Some x => x | None => VNone end)
+  | Some z =>
+      (* slice::get: in range or None (the comparison also keeps Z.to_nat small when evaluating) *)
+      ROk (if z <? Z.of_nat (length l)
+           then match nth_error l (Z.to_nat z) with Some x => x | None => VNone end
+           else VNone)
   end.
 
 (* Value::len (808-825) and the length filter *)
